@@ -4,8 +4,8 @@
    produced, for every input.  What the runtime adds (real stack limits,
    scheduling, memory) is observed by the harness, not modelled. *)
 From Coq Require Import NArith ZArith List Bool.
-From GJ Require Import Base.Bytes Gen.Tables Model.Int Model.StrDec Model.Compact Model.Iface Model.Path Model.KeyBitmap
-  Spec.Json Proofs.IntScanP Proofs.CompactP Proofs.IfaceP Proofs.PathP Proofs.KeyBitmapP Proofs.JsonSpecP.
+From GJ Require Import Base.Bytes Gen.Tables Model.Int Model.StrDec Model.Compact Model.Iface Model.Path Model.KeyBitmap Model.Skip
+  Spec.Json Proofs.IntScanP Proofs.CompactP Proofs.IfaceP Proofs.PathP Proofs.KeyBitmapP Proofs.JsonSpecP Proofs.SkipP Proofs.UtilSpecP.
 Import ListNotations.
 Open Scope N_scope.
 
@@ -31,6 +31,20 @@ Proof.
   intro data. rewrite compact_run_spec. destruct (parse_g clim allnum data) as [[ts rest]|]; split; discriminate.
 Qed.
 Print Assumptions C06_compact_total.
+
+(* Indent *)
+Theorem C06_indent_total : forall pre ind data,
+  indent_run pre ind data <> CStuck /\ indent_run pre ind data <> CFuel.
+Proof.
+  intros pre ind data. rewrite indent_run_spec. destruct (parse_g clim allnum data) as [[ts rest]|]; split; discriminate.
+Qed.
+Print Assumptions C06_indent_total.
+
+(* the skip functions of the typed decoders (skipValue, skipObject, skipArray): a loop over the bytes
+   (no recursion, so no stack to exhaust) that never reads past the sentinel, whatever the input *)
+Theorem C06_skip_total : forall depth data, sk_value depth (data ++ [0]) <> SStuck.
+Proof. exact skip_value_never_stuck. Qed.
+Print Assumptions C06_skip_total.
 
 (* the recursion of the decoder and of Compact is bounded by the nesting limit:
    a text nested deeper than the limit is refused, whatever else it contains *)
